@@ -53,7 +53,7 @@ def leaf_catalogue(tier='quick'):
     add('ENUM1', lambda: Type('ENUMERATED', root=[('only', 0)]))
     add('ENUM_ext70', lambda: Type('ENUMERATED', root=[('r0', 0)], ext=True, adds=[('a%d' % i, i) for i in range(1, 71)]))
     add('ENUM257', lambda: Type('ENUMERATED', root=_enum(257)))
-    add('ENUM_129', lambda: Type('ENUMERATED', root=[('z', 0), ('m', 127), ('n', 128), ('o', 129), ('neg', -129)]))
+    add('ENUM_129', lambda: Type('ENUMERATED', root=[('ez', 0), ('em', 127), ('en', 128), ('eo', 129), ('eneg', -129)]))
     sizes = [('', None), ('_S0', Cons(0, 0)), ('_S1', Cons(1, 1)), ('_S2', Cons(2, 2)), ('_S3', Cons(3, 3)), ('_S8', Cons(8, 8)),
              ('_S16', Cons(16, 16)), ('_S17', Cons(17, 17)), ('_S1_4', Cons(1, 4)), ('_S4ext', Cons(4, 4, True)),
              ('_S0_65535', Cons(0, 65535)), ('_S0_MAX', Cons(0, None)), ('_S1_4ext', Cons(1, 4, True)), ('_S0_300', Cons(0, 300))]
